@@ -426,9 +426,29 @@ class Evaluator:
                 return Const(neg)
             if isinstance(l, Const) and isinstance(r, Const):
                 return Const((l.value is r.value) != neg)
+            if isinstance(l, Inst) and isinstance(r, Inst):
+                return Const((l.oid == r.oid) != neg)
+            if isinstance(l, (Inst, SymObj, Lst, ClassRef, EnumVal)) and isinstance(r, (Inst, SymObj, Lst, ClassRef, EnumVal)):
+                if isinstance(l, EnumVal) and isinstance(r, EnumVal):
+                    return Const((l.cls is r.cls and l.name == r.name) != neg)
+                if isinstance(l, ClassRef) and isinstance(r, ClassRef):
+                    return Const((l.ci is r.ci) != neg)
+                if type(l) is not type(r) and not isinstance(l, SymObj) and not isinstance(r, SymObj):
+                    return Const(neg)
+                return self._bool_from(Test('opaque', key=f'{self.describe(l)} is {self.describe(r)}'), neg)
+            if isinstance(l, Const) or isinstance(r, Const):
+                c_, o_ = (l, r) if isinstance(l, Const) else (r, l)
+                if isinstance(o_, (Inst, Lst, Tup, ClassRef, EnumVal, Scalar)):
+                    return Const(neg)
+                if isinstance(o_, SymObj):
+                    return self._bool_from(Test('opaque', key=f'{o_.path} is {c_.value!r}'), neg)
             raise Undecided('is-comparison')
         if isinstance(op, (ast.In, ast.NotIn)):
             neg = isinstance(op, ast.NotIn)
+            if isinstance(r, DictVal):
+                k = self.dict_key(l)
+                if k is not None:
+                    return Const((k in r.items) != neg)
             its = self.items(st, r)
             if its is not None and all(isinstance(x, (Const, EnumVal)) for x in its) and isinstance(l, (Const, EnumVal)):
                 hit = any(self._same_concrete(l, x) for x in its)
@@ -595,6 +615,39 @@ class Evaluator:
     def e_List(self, node, st, ctx):
         return self.new_list(st, [self.eval(e, st, ctx) for e in node.elts])
 
+    def e_Dict(self, node, st, ctx):
+        items: Dict[Any, AV] = {}
+        for k, v in zip(node.keys, node.values):
+            if k is None:
+                raise Undecided('dict unpacking')
+            kv = self.eval(k, st, ctx)
+            if isinstance(kv, Const):
+                key: Any = ('c', kv.value)
+            elif isinstance(kv, EnumVal):
+                key = ('e', kv.cls.name, kv.name)
+            elif isinstance(kv, Scalar) and kv.rf.is_const():
+                key = ('n', kv.rf.const_value())
+            else:
+                return SymObj(f'<dict at line {node.lineno}>')
+            items[key] = self.eval(v, st, ctx)
+        return DictVal(items)
+
+    def e_DictComp(self, node, st, ctx):
+        return SymObj(f'<dict comprehension at line {node.lineno}>')
+
+    def e_Set(self, node, st, ctx):
+        return Tup([self.eval(e, st, ctx) for e in node.elts])
+
+    @staticmethod
+    def dict_key(v: AV):
+        if isinstance(v, Const):
+            return ('c', v.value)
+        if isinstance(v, EnumVal):
+            return ('e', v.cls.name, v.name)
+        if isinstance(v, Scalar) and v.rf.is_const():
+            return ('n', v.rf.const_value())
+        return None
+
     def e_NamedExpr(self, node, st, ctx):
         v = self.eval(node.value, st, ctx)
         st.env[node.target.id] = v
@@ -754,6 +807,24 @@ class Evaluator:
         base = self.eval(node.value, st, ctx)
         return self.lift(lambda b: self.getattr(b, node.attr, st, ctx, node), base)
 
+    def rebound_attrs(self) -> set:
+        """Attribute names that some statement of the package stores on an object other than a function's own
+        first parameter (``Dimension._table = ...``, ``cls.x = ...`` is excluded: classmethods of the owner)."""
+        if not hasattr(self, '_rebound'):
+            out = set()
+            for mod in self.prog.modules.values():
+                if mod.name.endswith('.example'):
+                    continue
+                for n in ast.walk(mod.tree):
+                    if isinstance(n, ast.Attribute) and isinstance(n.ctx, ast.Store) and isinstance(n.value, ast.Name) \
+                            and n.value.id not in ('self', 'cls', 'd'):
+                        out.add(n.attr)
+                    elif isinstance(n, ast.Call) and isinstance(n.func, ast.Name) and n.func.id == 'setattr' \
+                            and len(n.args) >= 2 and isinstance(n.args[1], ast.Constant):
+                        out.add(n.args[1].value)
+            self._rebound = out
+        return self._rebound
+
     def class_attr(self, ci: ClassInfo, attr: str, ctx: Ctx) -> Optional[AV]:
         if self.is_enum(ci) and attr in ci.attrs:
             _ann, val = ci.attrs[attr]
@@ -769,6 +840,10 @@ class Evaluator:
                 return hook(self, owner, attr)
             if isinstance(val, ast.Name) and val.id in owner.methods:
                 return FuncRef(owner.methods[val.id])
+            if attr in self.rebound_attrs() and isinstance(val, (ast.Dict, ast.List, ast.Set, ast.Call, ast.DictComp,
+                                                                  ast.ListComp)):
+                # a class-level container that other code assigns / fills at import or at run time
+                return SymObj(f'{owner.name}.{attr}')
             # a class body sees the names defined earlier in the same body (ALL = RANGE | ZERO_UP | ...)
             scope = State()
             used = {n.id for n in ast.walk(val) if isinstance(n, ast.Name)}
@@ -807,9 +882,13 @@ class Evaluator:
                 return v
             if attr == '__class__':
                 return ClassRef(base.cls)
-            if attr == '__dict__' and 'inst_dict' in self.hooks:
-                return self.hooks['inst_dict'](self, base, st)
-            raise Undecided(f'attribute {attr} of {base.cls.name} instance not set')
+            if attr == '__dict__':
+                if 'inst_dict' in self.hooks:
+                    return self.hooks['inst_dict'](self, base, st)
+                return DictVal({})      # slots-only quantities / records: no instance dictionary entries are ever stored
+            # an attribute the rule did not provide (added by a later version of the code): an unknown value
+            self.notes.append(f'attribute {attr} of a {base.cls.name} instance is not known to the rule: symbolic')
+            return SymObj(f'{base.cls.name}#{base.oid}.{attr}')
         if isinstance(base, ClassRef):
             hook = self.hooks.get(f'classattr:{base.ci.name}.{attr}')
             if hook is not None:
@@ -900,6 +979,13 @@ class Evaluator:
         return self.lift(lambda b, i: self.getitem(b, i, st, ctx), base, idx)
 
     def getitem(self, b: AV, i: AV, st: State, ctx: Ctx) -> AV:
+        if isinstance(b, DictVal):
+            k = self.dict_key(i)
+            if k is not None and k in b.items:
+                return b.items[k]
+            if k is not None:
+                return Raised('KeyError')
+            raise Undecided('symbolic key into a literal dict')
         its = self.items(st, b)
         if its is not None:
             if self.is_concrete_number(i):
@@ -920,10 +1006,15 @@ class Evaluator:
 
     # -- comprehension (concrete iterables only) -----------------------------------------
     def e_ListComp(self, node, st, ctx):
-        if len(node.generators) != 1 or node.generators[0].ifs:
+        if len(node.generators) != 1:
             raise Undecided('comprehension shape')
         gen = node.generators[0]
         it = self.eval(gen.iter, st, ctx)
+        if isinstance(it, Cond):
+            return self.lift(lambda x: self._comp(node, gen, x, st, ctx), it)
+        return self._comp(node, gen, it, st, ctx)
+
+    def _comp(self, node, gen, it: AV, st: State, ctx: Ctx) -> AV:
         its = self.items(st, it)
         if its is None:
             if isinstance(it, SymObj):
@@ -931,13 +1022,22 @@ class Evaluator:
                 sub = State(dict(st.env), st.heap, list(st.facts))
                 self.assign(gen.target, SymObj(f'{it.path}[*]'), sub, ctx)
                 elt = self.eval(node.elt, sub, ctx)
-                return SymObj(f'[{self.describe(elt)} for {it.path}]')
+                flt = ' if ' + ' and '.join(norm(c) for c in gen.ifs) if gen.ifs else ''
+                return SymObj(f'[{self.describe(elt)} for {it.path}{flt}]')
             raise Undecided('comprehension over unknown iterable')
         out = []
         for x in its:
             sub = State(dict(st.env), st.heap, list(st.facts))
             self.assign(gen.target, x, sub, ctx)
-            out.append(self.eval(node.elt, sub, ctx))
+            keep = True
+            for c in gen.ifs:
+                tr = self.truth(self.eval(c, sub, ctx), sub)
+                if tr is False:
+                    keep = False
+                elif tr is not True:
+                    raise Undecided('comprehension filter on a symbolic condition')
+            if keep:
+                out.append(self.eval(node.elt, sub, ctx))
         return self.new_list(st, out)
 
     def e_GeneratorExp(self, node, st, ctx):
@@ -1042,7 +1142,14 @@ class Evaluator:
             if name == 'values' and not args:
                 return Tup(list(base.items.values()))
             if name == 'keys' and not args:
-                return Tup([Const(k) for k in base.items])
+                return Tup([Const(k[1]) if k[0] == 'c' else Const(str(k)) for k in base.items])
+            if name == 'get' and args:
+                k = self.dict_key(args[0])
+                if k is None:
+                    if not base.items:
+                        return args[1] if len(args) > 1 else NONE
+                    raise Undecided('dict.get with a symbolic key')
+                return base.items.get(k, args[1] if len(args) > 1 else NONE)
             raise Undecided(f'dict.{name}')
         if kind == 'strmethod':
             if name in ('lower', 'upper', 'strip') and not args:
@@ -1226,6 +1333,13 @@ class Evaluator:
             r = hook(self, fv, args, kwargs, st)
             if r is not None:
                 return r
+        if mod == 'builtins' and name in ('min', 'max') and len(args) == 1 and not kwargs:
+            x = args[0]
+            its = self.items(st, x)
+            if its is not None and its:
+                return self.lift(lambda *xs: self.math_call(mod, name, list(xs), st, ctx), *its)
+            if isinstance(x, SymObj):
+                return SymObj(f'{name}({x.path})')
         if mod == 'math' or (mod == 'builtins' and name in ('abs', 'min', 'max', 'float', 'int', 'round')):
             return self.lift(lambda *xs: self.math_call(mod, name, list(xs), st, ctx), *args)
         if mod == 'object' and name == '__new__':
@@ -1249,12 +1363,42 @@ class Evaluator:
                     tr = self.truth(x, st)
                     return Const(tr) if isinstance(tr, bool) else Cond(tr, TRUE, FALSE)
                 return self.lift(b, args[0])
-            if name in ('tuple', 'list') and args:
-                its = self.items(st, args[0])
-                if its is not None:
-                    return Tup(its) if name == 'tuple' else self.new_list(st, its)
-                if isinstance(args[0], SymObj):
-                    return args[0]
+            if name in ('tuple', 'list', 'sorted', 'reversed', 'set', 'frozenset') and args:
+                def _seq(x: AV) -> AV:
+                    its = self.items(st, x)
+                    if its is not None and name in ('tuple', 'list'):
+                        return Tup(its) if name == 'tuple' else self.new_list(st, its)
+                    if its is not None and not its:
+                        return Tup([])
+                    if isinstance(x, SymObj):
+                        return x if name in ('tuple', 'list') else SymObj(f'{name}({x.path})')
+                    raise Undecided(f'{name}() of {x!r}')
+                return self.lift(_seq, args[0])
+            if name == 'getattr' and len(args) >= 2 and isinstance(args[1], Const) and isinstance(args[1].value, str):
+                def _ga(o: AV) -> AV:
+                    if isinstance(o, Inst):
+                        h_ = st.heap[o.oid]
+                        if args[1].value in h_:
+                            return h_[args[1].value]
+                        if self.prog.find_method(o.cls, args[1].value) is not None or \
+                                self.prog.find_class_attr(o.cls, args[1].value) is not None:
+                            return self.getattr(o, args[1].value, st, ctx)
+                        if len(args) > 2:
+                            # not set by the rule: either the default or an unknown later value
+                            return Cond(Test('opaque', key=f'hasattr({o.cls.name}, {args[1].value})'),
+                                        SymObj(f'{o.cls.name}#{o.oid}.{args[1].value}'), args[2])
+                        return SymObj(f'{o.cls.name}#{o.oid}.{args[1].value}')
+                    return self.getattr(o, args[1].value, st, ctx)
+                return self.lift(_ga, args[0])
+            if name == 'hasattr' and len(args) == 2 and isinstance(args[1], Const):
+                o = args[0]
+                if isinstance(o, Inst) and args[1].value in st.heap[o.oid]:
+                    return TRUE
+                return Cond(Test('opaque', key=f'hasattr({self.describe(o)}, {args[1].value})'), TRUE, FALSE)
+            if name in ('min', 'max', 'sum', 'any', 'all') and len(args) == 1:
+                x = args[0]
+                if isinstance(x, SymObj):
+                    return SymObj(f'{name}({x.path})')
             if name in ('tuple', 'list') and not args:
                 return Tup([]) if name == 'tuple' else self.new_list(st, [])
             if name in ('ValueError', 'TypeError', 'RuntimeError', 'AttributeError', 'ArithmeticError',
@@ -1608,6 +1752,11 @@ class Evaluator:
     def run_func(self, func: Func, env: Dict[str, AV], st: Optional[State] = None):
         st = st or State()
         st.env.update(env)
+        for p in func.params:
+            if p not in st.env:
+                d = func.default_of(p)
+                if d is not None:
+                    st.env[p] = self.eval(d, State(), Ctx(func.module, None, None, 1))
         return self.exec_block(func.node.body, st, Ctx(func.module, func, None, 0)), st
 
     def call_value(self, func: Func, args: List[AV], kwargs: Optional[Dict[str, AV]] = None,
